@@ -163,6 +163,22 @@ func TestVerifReplayC16(t *testing.T) {
 			report("exact", fmt.Sprintf("edit %q -> %q: HasChanged reports no recompilation although the Go expressions differ (%q vs %q) and so does the generated code", pr[0], pr[1], opa.SourceMap.Expressions, opb.SourceMap.Expressions))
 		}
 	}
+	// ... and so is top-level Go code: an edit inside a multi-line raw string, on a line that looks like a comment
+	exactFiles := [][2]string{
+		{"package p\n\nvar footer = \x60\nsee\n  https://docs.example.com/v1/manual\n\x60\n\ntempl t(x string) {\n\t<p>{ footer }</p>\n}\n", "package p\n\nvar footer = \x60\nsee\n  https://docs.example.com/v2/manual\n\x60\n\ntempl t(x string) {\n\t<p>{ footer }</p>\n}\n"},
+		{"package p\n\nconst sep = \"//\" // one\n\ntempl t(x string) {\n\t<p>{ sep }</p>\n}\n", "package p\n\nconst sep = \"/\" // one\n\ntempl t(x string) {\n\t<p>{ sep }</p>\n}\n"},
+	}
+	for _, pr := range exactFiles {
+		opa, ca, err1 := verifGen(pr[0])
+		opb, cb, err2 := verifGen(pr[1])
+		if err1 != nil || err2 != nil {
+			continue
+		}
+		pairs++
+		if !HasChanged(opa, opb) && verifSkeleton(ca) != verifSkeleton(cb) {
+			report("exact", fmt.Sprintf("edit of top-level Go code %q -> %q: HasChanged reports no recompilation (recorded expressions %q vs %q) although the generated code differs", pr[0], pr[1], opa.SourceMap.Expressions, opb.SourceMap.Expressions))
+		}
+	}
 	if len(found) == 0 {
 		fmt.Printf("REPLAY-NOT-REPRODUCED bounded search: %d templates for the literal protocol, %d edit pairs for HasChanged\n", len(names), pairs)
 	}
@@ -233,6 +249,9 @@ func replayC16(r *Run, o *Obligation) *ReplayResult {
 		r.replayOut["C16"] = out
 	}
 	want := "[literals]"
+	if strings.Contains(o.Name, "#exprlist") {
+		want = "[exact]"
+	}
 	if strings.Contains(o.Name, "HasChanged") {
 		want = "[exact]"
 		if strings.Contains(o.Name, "HasChanged#ensures.1@") {
